@@ -54,36 +54,36 @@ Proof. unfold analyse, abs_project, t_cmds. cbn [a_cmds]. change empty_file with
   unfold abs_file. cbn [sf_cmds]. rewrite map_map. reflexivity. Qed.
 
 (* ---- the text-level generator models factor through the analysed data ---- *)
-Lemma struct_factor path s : P.struct_toks s = ST (abs_struct path s).
-Proof. unfold P.struct_toks, ST, ST3, abs_struct. cbn [s_name s_fields s_rename_all].
+Lemma struct_factor path s : Pipeline.struct_toks s = ST (abs_struct path s).
+Proof. unfold Pipeline.struct_toks, ST, ST3, abs_struct. cbn [s_name s_fields s_rename_all].
   rewrite flat_map_if_filter, flat_map_map'. reflexivity. Qed.
 
-Lemma params_factor path t : P.params_iface_toks (t_def t) = PT (abs_cmd path t).
-Proof. unfold P.params_iface_toks, PT, PT3, abs_cmd. cbn [c_name c_params c_chans].
-  destruct (P.value_params (t_def t)) as [|v vs], (P.channels (t_def t)) as [|ch cs]; try reflexivity.
+Lemma params_factor path t : Pipeline.params_iface_toks (t_def t) = PT (abs_cmd path t).
+Proof. unfold Pipeline.params_iface_toks, PT, PT3, abs_cmd. cbn [c_name c_params c_chans].
+  destruct (Pipeline.value_params (t_def t)) as [|v vs], (Pipeline.channels (t_def t)) as [|ch cs]; try reflexivity.
   - change (map abs_chan (ch :: cs)) with (map abs_chan (ch :: cs)). cbn [map].
     change (abs_chan ch :: map abs_chan cs) with (map abs_chan (ch :: cs)). rewrite flat_map_map'. reflexivity.
   - cbn [map]. change (abs_param v :: map abs_param vs) with (map abs_param (v :: vs)). rewrite flat_map_map'. reflexivity.
   - cbn [map]. change (abs_param v :: map abs_param vs) with (map abs_param (v :: vs)).
     change (abs_chan ch :: map abs_chan cs) with (map abs_chan (ch :: cs)). rewrite !flat_map_map'. reflexivity. Qed.
 
-Lemma wrapper_factor path t : P.wrapper_toks (t_def t) = WT (abs_cmd path t).
-Proof. unfold P.wrapper_toks, WT, WT4, abs_cmd. cbn [c_name c_params c_chans c_ret]. rewrite !map_length. reflexivity. Qed.
+Lemma wrapper_factor path t : Pipeline.wrapper_toks (t_def t) = WT (abs_cmd path t).
+Proof. unfold Pipeline.wrapper_toks, WT, WT4, abs_cmd. cbn [c_name c_params c_chans c_ret]. rewrite !map_length. reflexivity. Qed.
 
 Lemma has_chan_factor (X : list (str * tfn)) :
-  existsb (fun f => negb (Nat.eqb (List.length (P.channels f)) 0)) (map (fun x => t_def (snd x)) X) = has_chan_a (map abs_cmd' X).
+  existsb (fun f => negb (Nat.eqb (List.length (Pipeline.channels f)) 0)) (map (fun x => t_def (snd x)) X) = has_chan_a (map abs_cmd' X).
 Proof. unfold has_chan_a. induction X as [|x X IH]; [reflexivity|]. cbn [map existsb]. rewrite IH. f_equal.
   unfold abs_cmd', abs_cmd. cbn [c_chans]. rewrite map_length. reflexivity. Qed.
 
-Lemma types_factor (S : list (str * P.struct_def)) (X : list (str * tfn)) :
-  P.types_toks (map snd S) (map (fun x => t_def (snd x)) X) = types_toks_a (map abs_struct' S) (map abs_cmd' X).
-Proof. unfold P.types_toks, types_toks_a. rewrite has_chan_factor, !flat_map_map'. f_equal. f_equal.
+Lemma types_factor (S : list (str * Pipeline.struct_def)) (X : list (str * tfn)) :
+  Pipeline.types_toks (map snd S) (map (fun x => t_def (snd x)) X) = types_toks_a (map abs_struct' S) (map abs_cmd' X).
+Proof. unfold Pipeline.types_toks, types_toks_a. rewrite has_chan_factor, !flat_map_map'. f_equal. f_equal.
   - apply flat_map_ext. intros x. apply struct_factor.
   - apply flat_map_ext. intros x. apply params_factor. Qed.
 
 Lemma commands_factor (X : list (str * tfn)) :
-  P.commands_toks (map (fun x => t_def (snd x)) X) = commands_toks_a (map abs_cmd' X).
-Proof. unfold P.commands_toks, commands_toks_a. rewrite has_chan_factor, !flat_map_map'. do 3 f_equal.
+  Pipeline.commands_toks (map (fun x => t_def (snd x)) X) = commands_toks_a (map abs_cmd' X).
+Proof. unfold Pipeline.commands_toks, commands_toks_a. rewrite has_chan_factor, !flat_map_map'. do 3 f_equal.
   apply flat_map_ext. intros x. apply wrapper_factor. Qed.
 
 Lemma gen_structs_sorted w p : map abs_struct' (isort sleb (t_structs w p)) = a_structs_sorted (analyse w (abs_project p)).
@@ -101,13 +101,13 @@ Proof. unfold commands_ts, gen_cmds. rewrite commands_factor, gen_cmds_sorted. r
 
 (* ---- the hashed data determine the text of every item ---- *)
 Lemma hf_inj f f' : hf f = hf f' -> f = f'.
-Proof. destruct f, f'. unfold hf. cbn [f_name f_type f_opt f_pub f_rename f_valid]. intros H. inversion H.
+Proof. destruct f as [a1 a2 a3 a4 a5 a6], f' as [b1 b2 b3 b4 b5 b6]. unfold hf. cbn [f_name f_type f_opt f_pub f_rename f_valid]. intros H. inversion H.
   repeat match goal with E : topt _ = topt _ |- _ => apply topt_inj in E end. subst. reflexivity. Qed.
 Lemma hp_inj p p' : hp p = hp p' -> p = p'.
-Proof. destruct p, p'. unfold hp. cbn [p_name p_type p_opt p_rename]. intros H. inversion H.
+Proof. destruct p as [a1 a2 a3 a4], p' as [b1 b2 b3 b4]. unfold hp. cbn [p_name p_type p_opt p_rename]. intros H. inversion H.
   repeat match goal with E : topt _ = topt _ |- _ => apply topt_inj in E end. subst. reflexivity. Qed.
 Lemma hch_inj k k' : hch k = hch k' -> k = k'.
-Proof. destruct k, k'. unfold hch. cbn [ch_param ch_msg]. intros H. inversion H. subst. reflexivity. Qed.
+Proof. destruct k as [a1 a2], k' as [b1 b2]. unfold hch. cbn [ch_param ch_msg]. intros H. inversion H. subst. reflexivity. Qed.
 
 Lemma hs_determines r r' s s' : hs r s = hs r' s' ->
   s_name s = s_name s' /\ s_fields s = s_fields s' /\ s_rename_all s = s_rename_all s'.
@@ -155,8 +155,9 @@ Lemma view_types w p c w' p' c' : view_of w p c = view_of w' p' c' ->
   fp_cmds (g_ppath c) (analyse w (abs_project p)) = fp_cmds (g_ppath c') (analyse w' (abs_project p')) /\
   fp_structs (g_ppath c) (analyse w (abs_project p)) = fp_structs (g_ppath c') (analyse w' (abs_project p')) /\
   fp_cfg c = fp_cfg c'.
-Proof. unfold view_of, files. cbn [app]. intros H. inversion H as [[Ht Hrest]].
-  repeat split; assumption. Qed.
+Proof. unfold view_of, files. cbn [app]. intros H.
+  apply (f_equal (fun l => match l with x :: _ => snd x | [] => TN [] end)) in H. cbn beta iota in H. cbn [snd] in H.
+  apply TN_inj, list4_inj in H. destruct H as (_ & Hc & Hs & Hg). repeat split; assumption. Qed.
 
 Theorem view_determines_types_ts w p c w' p' c' : view_of w p c = view_of w' p' c' -> types_ts w p c = types_ts w' p' c'.
 Proof. intros H. apply view_types in H. destruct H as (Hc & Hs & _). rewrite !types_ts_of_analysis.
@@ -164,3 +165,271 @@ Proof. intros H. apply view_types in H. destruct H as (Hc & Hs & _). rewrite !ty
 Theorem view_determines_commands_ts w p c w' p' c' : view_of w p c = view_of w' p' c' -> commands_ts w p c = commands_ts w' p' c'.
 Proof. intros H. apply view_types in H. destruct H as (Hc & _ & _). rewrite !commands_ts_of_analysis.
   apply (commands_toks_a_of_hash (g_ppath c) (g_ppath c')). apply fp_cmds_sorted_eq. assumption. Qed.
+
+(* ---- zod mode: the same factorisation ---- *)
+Lemma cat_map_if_filter {A} (sk : A -> bool) (g : A -> str) l :
+  PipelineZod.cat (map (fun x => if sk x then [] else g x) l) = PipelineZod.cat (map g (filter (fun x => negb (sk x)) l)).
+Proof. unfold PipelineZod.cat. rewrite <- !flat_map_concat_map. apply flat_map_if_filter. Qed.
+
+Lemma zstruct_factor path s : PipelineZod.struct_schema_text s = ZST (abs_struct path s).
+Proof. unfold PipelineZod.struct_schema_text, ZST, ZST3, abs_struct. cbn [s_name s_fields s_rename_all].
+  rewrite cat_map_if_filter, map_map. reflexivity. Qed.
+Lemma zparams_factor path t : PipelineZod.param_schema_text (t_def t) = ZPS (abs_cmd path t).
+Proof. unfold PipelineZod.param_schema_text, ZPS, ZPS2, abs_cmd, PipelineZod.tname. cbn [c_name c_params].
+  destruct (Pipeline.value_params (t_def t)) as [|v vs]; [reflexivity|].
+  change (map abs_param (v :: vs)) with (abs_param v :: map abs_param vs).
+  change (abs_param v :: map abs_param vs) with (map abs_param (v :: vs)) at 2.
+  cbn [map]. rewrite map_map. reflexivity. Qed.
+Lemma zchan_factor f : PipelineZod.chan_members f = ZCM (map abs_chan (Pipeline.channels f)).
+Proof. unfold PipelineZod.chan_members, ZCM. rewrite map_map. reflexivity. Qed.
+Lemma zalias_factor path t : PipelineZod.alias_text (t_def t) = ZAL (abs_cmd path t).
+Proof. unfold PipelineZod.alias_text, ZAL, ZAL3, abs_cmd, PipelineZod.tname. cbn [c_name c_params c_chans]. rewrite zchan_factor.
+  destruct (Pipeline.value_params (t_def t)) as [|v vs], (Pipeline.channels (t_def t)) as [|ch cs]; reflexivity. Qed.
+Lemma zwrapper_factor path t : PipelineZod.zod_wrapper_text (t_def t) = ZWT (abs_cmd path t).
+Proof. unfold PipelineZod.zod_wrapper_text, ZWT, ZWT4, abs_cmd, PipelineZod.tname. cbn [c_name c_params c_chans c_ret].
+  rewrite !map_length, map_map. reflexivity. Qed.
+
+Lemma zod_types_factor (S : list (str * Pipeline.struct_def)) (X : list (str * tfn)) :
+  PipelineZod.zod_types_text (map snd S) (map (fun x => t_def (snd x)) X) = zod_types_a (map abs_struct' S) (map abs_cmd' X).
+Proof. unfold PipelineZod.zod_types_text, zod_types_a, PipelineZod.has_chan. rewrite has_chan_factor, !map_map. do 2 f_equal.
+  f_equal; [|f_equal]; f_equal; apply map_ext; intros x; [apply zstruct_factor|apply zparams_factor|apply zalias_factor]. Qed.
+Lemma zod_commands_factor (X : list (str * tfn)) :
+  PipelineZod.zod_commands_text (map (fun x => t_def (snd x)) X) = zod_commands_a (map abs_cmd' X).
+Proof. unfold PipelineZod.zod_commands_text, zod_commands_a, PipelineZod.has_chan. rewrite has_chan_factor, !map_map. do 4 f_equal.
+  apply map_ext. intros x. apply zwrapper_factor. Qed.
+
+Theorem zod_types_ts_of_analysis w p c :
+  zod_types_ts w p c = zod_types_a (a_structs_sorted (analyse w (abs_project p))) (a_cmds_sorted (g_ppath c) (analyse w (abs_project p))).
+Proof. unfold zod_types_ts, gen_structs, gen_cmds. rewrite zod_types_factor, gen_structs_sorted, gen_cmds_sorted. reflexivity. Qed.
+Theorem zod_commands_ts_of_analysis w p c :
+  zod_commands_ts w p c = zod_commands_a (a_cmds_sorted (g_ppath c) (analyse w (abs_project p))).
+Proof. unfold zod_commands_ts, gen_cmds. rewrite zod_commands_factor, gen_cmds_sorted. reflexivity. Qed.
+
+Lemma hs_ZST r r' s s' : hs r s = hs r' s' -> ZST s = ZST s'.
+Proof. intros H. apply hs_determines in H. destruct H as (Hn & Hf & Hr). unfold ZST. rewrite Hn, Hf, Hr. reflexivity. Qed.
+Lemma hc_ZPS r r' k k' : hc r k = hc r' k' -> ZPS k = ZPS k'.
+Proof. intros H. apply hc_determines in H. destruct H as (Hn & Hp & Hr & Hc). unfold ZPS. rewrite Hn, Hp. reflexivity. Qed.
+Lemma hc_ZAL r r' k k' : hc r k = hc r' k' -> ZAL k = ZAL k'.
+Proof. intros H. apply hc_determines in H. destruct H as (Hn & Hp & Hr & Hc). unfold ZAL. rewrite Hn, Hp, Hc. reflexivity. Qed.
+Lemma hc_ZWT r r' k k' : hc r k = hc r' k' -> ZWT k = ZWT k'.
+Proof. intros H. apply hc_determines in H. destruct H as (Hn & Hp & Hr & Hc). unfold ZWT. rewrite Hn, Hp, Hc, Hr. reflexivity. Qed.
+
+Lemma zod_types_a_of_hash r r' sl sl' cl cl' :
+  map (hs r) sl = map (hs r') sl' -> map (hc r) cl = map (hc r') cl' -> zod_types_a sl cl = zod_types_a sl' cl'.
+Proof. intros Hs Hc. unfold zod_types_a. rewrite !has_chan_a_chans.
+  rewrite (map_eq_transfer2 (hc r) (hc r') c_chans c_chans (hc_chans r r') cl cl' Hc).
+  rewrite (map_eq_transfer2 (hs r) (hs r') ZST ZST (hs_ZST r r') sl sl' Hs).
+  rewrite (map_eq_transfer2 (hc r) (hc r') ZPS ZPS (hc_ZPS r r') cl cl' Hc).
+  rewrite (map_eq_transfer2 (hc r) (hc r') ZAL ZAL (hc_ZAL r r') cl cl' Hc). reflexivity. Qed.
+Lemma zod_commands_a_of_hash r r' cl cl' :
+  map (hc r) cl = map (hc r') cl' -> zod_commands_a cl = zod_commands_a cl'.
+Proof. intros Hc. unfold zod_commands_a. rewrite !has_chan_a_chans.
+  rewrite (map_eq_transfer2 (hc r) (hc r') c_chans c_chans (hc_chans r r') cl cl' Hc).
+  rewrite (map_eq_transfer2 (hc r) (hc r') ZWT ZWT (hc_ZWT r r') cl cl' Hc). reflexivity. Qed.
+
+Theorem view_determines_zod_types_ts w p c w' p' c' : view_of w p c = view_of w' p' c' -> zod_types_ts w p c = zod_types_ts w' p' c'.
+Proof. intros H. apply view_types in H. destruct H as (Hc & Hs & _). rewrite !zod_types_ts_of_analysis.
+  apply (zod_types_a_of_hash (g_ppath c) (g_ppath c')); [apply fp_structs_sorted_eq|apply fp_cmds_sorted_eq]; assumption. Qed.
+Theorem view_determines_zod_commands_ts w p c w' p' c' : view_of w p c = view_of w' p' c' -> zod_commands_ts w p c = zod_commands_ts w' p' c'.
+Proof. intros H. apply view_types in H. destruct H as (Hc & _ & _). rewrite !zod_commands_ts_of_analysis.
+  apply (zod_commands_a_of_hash (g_ppath c) (g_ppath c')). apply fp_cmds_sorted_eq. assumption. Qed.
+
+(* ---- events.ts ---- *)
+Lemma u_events_pairs a a' : u_events a = u_events a' -> ev_pairs (a_events a) = ev_pairs (a_events a').
+Proof. unfold u_events, ev_pairs. intros H. apply TN_inj in H. revert H. apply map_eq_transfer2.
+  intros x y E. apply TN_inj in E. inversion E. reflexivity. Qed.
+Lemma u_events_has a a' : u_events a = u_events a' -> has_events a = has_events a'.
+Proof. unfold u_events, has_events. intros H. apply TN_inj in H.
+  destruct (a_events a), (a_events a'); cbn [map] in H; try discriminate; reflexivity. Qed.
+Lemma kv_tree_inj (x y : str * str) : TN [TA (fst x); TA (snd x)] = TN [TA (fst y); TA (snd y)] -> x = y.
+Proof. destruct x, y. cbn [fst snd]. intros H. inversion H. reflexivity. Qed.
+Lemma fp_cfg_determines c c' : fp_cfg c = fp_cfg c' -> g_lib c = g_lib c' /\ sorted_maps c = sorted_maps c' /\ g_viz c = g_viz c'.
+Proof. unfold fp_cfg. intros H. apply TN_inj, list7_inj in H. destruct H as (Hl & _ & Hm & _ & _ & Hv & _).
+  apply TA_inj in Hl. apply TB_inj in Hv. repeat split; try assumption.
+  unfold hmaps in Hm. unfold sorted_maps. destruct (g_maps c) as [l|], (g_maps c') as [l'|]; try discriminate; [|reflexivity].
+  apply TN_inj, list1_inj, TN_inj in Hm. revert Hm. apply map_inj_eq. exact kv_tree_inj. Qed.
+
+Lemma ev_text_of_hash w p c w' p' c' :
+  u_events (analyse w (abs_project p)) = u_events (analyse w' (abs_project p')) -> fp_cfg c = fp_cfg c' ->
+  ev_text w p c = ev_text w' p' c'.
+Proof. intros Hu Hg. unfold ev_text. apply u_events_pairs in Hu. apply fp_cfg_determines in Hg.
+  destruct Hg as (_ & Hm & _). rewrite Hu, Hm. reflexivity. Qed.
+
+Theorem view_determines_events_ts w p c w' p' c' : view_of w p c = view_of w' p' c' -> events_ts w p c = events_ts w' p' c'.
+Proof. intros H. pose proof (view_types _ _ _ _ _ _ H) as (_ & _ & Hg). revert H. unfold view_of, files, events_ts.
+  set (a := analyse w (abs_project p)). set (a' := analyse w' (abs_project p')). cbn [app].
+  destruct (has_events a) eqn:E, (has_events a') eqn:E'; cbn [app]; intros H.
+  - apply (f_equal (fun l => snd (nth 2 l (Types, TN [])))) in H. cbn [nth snd] in H.
+    apply TN_inj, list3_inj in H. destruct H as (_ & Hu & _). f_equal. apply ev_text_of_hash; assumption.
+  - apply (f_equal (fun l => fname_code (fst (nth 2 l (Types, TN []))))) in H. cbn [nth fst fname_code] in H. discriminate.
+  - apply (f_equal (fun l => fname_code (fst (nth 2 l (Types, TN []))))) in H. cbn [nth fst fname_code] in H. discriminate.
+  - reflexivity. Qed.
+
+Theorem text_function_of_view w p c w' p' c' : view_of w p c = view_of w' p' c' ->
+  types_ts w p c = types_ts w' p' c' /\ commands_ts w p c = commands_ts w' p' c' /\
+  zod_types_ts w p c = zod_types_ts w' p' c' /\ zod_commands_ts w p c = zod_commands_ts w' p' c' /\
+  events_ts w p c = events_ts w' p' c'.
+Proof. intros H. split; [exact (view_determines_types_ts _ _ _ _ _ _ H)|].
+  split; [exact (view_determines_commands_ts _ _ _ _ _ _ H)|]. split; [exact (view_determines_zod_types_ts _ _ _ _ _ _ H)|].
+  split; [exact (view_determines_zod_commands_ts _ _ _ _ _ _ H)|exact (view_determines_events_ts _ _ _ _ _ _ H)]. Qed.
+
+(* ---- (b) the fingerprint covers the view, and with it the text ---- *)
+Theorem fp_covers_view w p c w' p' c' :
+  fp_t w p c = fp_t w' p' c' -> unhashed_t w p c = unhashed_t w' p' c' -> view_of w p c = view_of w' p' c'.
+Proof. unfold fp_t, unhashed_t, view_of. apply fp_sound_modulo_unhashed. Qed.
+
+Lemma fp_t_components w p c w' p' c' : fp_t w p c = fp_t w' p' c' ->
+  fp_cmds (g_ppath c) (analyse w (abs_project p)) = fp_cmds (g_ppath c') (analyse w' (abs_project p')) /\
+  fp_structs (g_ppath c) (analyse w (abs_project p)) = fp_structs (g_ppath c') (analyse w' (abs_project p')) /\
+  fp_cfg c = fp_cfg c' /\ u_events (analyse w (abs_project p)) = u_events (analyse w' (abs_project p')).
+Proof. unfold fp_t, fp. intros H. apply TN_inj, list4_inj in H. exact H. Qed.
+
+(* without the graph nothing unhashed reaches a file *)
+Theorem fp_covers_view_no_graph w p c w' p' c' :
+  fp_t w p c = fp_t w' p' c' -> g_viz c = false -> view_of w p c = view_of w' p' c'.
+Proof. intros H Hv. apply fp_covers_view; [exact H|]. apply fp_t_components in H. destruct H as (_ & _ & Hg & _).
+  apply fp_cfg_determines in Hg. destruct Hg as (_ & _ & Hv'). rewrite Hv in Hv'.
+  unfold unhashed_t, unhashed, u_lines. rewrite Hv, <- Hv'. reflexivity. Qed.
+
+(* the text files need no unhashed component at all *)
+Theorem fp_covers_text w p c w' p' c' : fp_t w p c = fp_t w' p' c' ->
+  types_ts w p c = types_ts w' p' c' /\ commands_ts w p c = commands_ts w' p' c' /\
+  zod_types_ts w p c = zod_types_ts w' p' c' /\ zod_commands_ts w p c = zod_commands_ts w' p' c' /\
+  events_ts w p c = events_ts w' p' c' /\ ev_text w p c = ev_text w' p' c' /\ is_zod c = is_zod c'.
+Proof. intros H. apply fp_t_components in H. destruct H as (Hc & Hs & Hg & Hu).
+  pose proof (fp_structs_sorted_eq _ _ _ _ Hs) as Hs'. pose proof (fp_cmds_sorted_eq _ _ _ _ Hc) as Hc'.
+  assert (He : ev_text w p c = ev_text w' p' c') by (apply ev_text_of_hash; assumption).
+  rewrite !types_ts_of_analysis, !commands_ts_of_analysis, !zod_types_ts_of_analysis, !zod_commands_ts_of_analysis.
+  split; [apply (types_toks_a_of_hash (g_ppath c) (g_ppath c')); assumption|].
+  split; [apply (commands_toks_a_of_hash (g_ppath c) (g_ppath c')); assumption|].
+  split; [apply (zod_types_a_of_hash (g_ppath c) (g_ppath c')); assumption|].
+  split; [apply (zod_commands_a_of_hash (g_ppath c) (g_ppath c')); assumption|].
+  split; [unfold events_ts; rewrite (u_events_has _ _ Hu), He; reflexivity|].
+  split; [exact He|]. unfold is_zod. apply fp_cfg_determines in Hg. destruct Hg as (Hl & _). rewrite Hl. reflexivity. Qed.
+
+(* the write plan with text: determined by the fingerprint and the one unhashed component *)
+Theorem fp_covers_text_files w p c w' p' c' :
+  fp_t w p c = fp_t w' p' c' -> unhashed_t w p c = unhashed_t w' p' c' -> text_files w p c = text_files w' p' c'.
+Proof. intros H Hu. unfold text_files. rewrite (fp_covers_view _ _ _ _ _ _ H Hu). apply map_ext. intros [f v]. cbn [fst snd].
+  apply fp_covers_text in H. destruct H as (H1 & H2 & H3 & H4 & _ & H6 & H7).
+  unfold text_content. rewrite H1, H2, H3, H4, H6, H7. reflexivity. Qed.
+
+Lemma text_files_nodup w p c : NoDup (map fst (text_files w p c)).
+Proof. unfold text_files. rewrite map_map. cbn [fst]. apply files_nodup. Qed.
+
+(* ---- the run / cache machine with text contents ---- *)
+Require Import TT.Model.C08Run TT.Proofs.C08RunProofs.
+Notation InvW_t := (InvW tproject config sched fname content tree text_files fp_t).
+Notation up_to_date_t := (up_to_date tproject config sched fname content tree text_files).
+Notation sound_hit_t := (sound_hit tproject config sched fname content tree tree_eqb text_files fp_t has_commands_t g_force true).
+
+Lemma kf_t_nil_sound_hit w sg : kf_C08_t w sg = [] -> sound_hit_t w sg.
+Proof. destruct sg as [st g]. intros Hk g0 Hg Hca Hc Hf Hh. cbn [fst snd] in *. subst g.
+  unfold kf_C08_t in Hk. rewrite Hc in Hk. unfold effective_force in Hf. cbn [orb] in Hf. rewrite Hf in Hk.
+  unfold cache_hit_t in Hk. rewrite Hh in Hk. cbn [negb andb] in Hk.
+  destruct g0 as [[w0 p0] c0]. cbn [gfiles_of gfp_of] in *.
+  unfold cache_hit in Hh. rewrite Hca in Hh.
+  destruct (tree_eqb (fp_t w0 p0 c0) (fp_t w (s_src st) (s_cfg st))) eqn:E; [|discriminate].
+  apply tree_eqb_spec in E.
+  assert (Hfiles : text_files w0 p0 c0 = text_files w (s_src st) (s_cfg st)).
+  { apply fp_covers_text_files; [exact E|]. unfold unhashed_t, unhashed. f_equal.
+    destruct (tree_eqb (u_lines _ _) (u_lines _ _)) eqn:E8 in Hk; [|discriminate]. apply tree_eqb_spec. exact E8. }
+  split; [exact Hfiles|]. rewrite Hfiles. exact Hh. Qed.
+
+Theorem cache_sound_text : forall (ops : list top) (sg0 : tstate * option tgen) (w : sched),
+  InvW_t sg0 ->
+  let sg := fold_left stepG_t ops sg0 in
+  kf_C08_t w sg = [] ->
+  forall r st', run_t w false None (fst sg) = (r, st') -> r = Success \/ r = UpToDate -> up_to_date_t w st'.
+Proof. intros ops sg0 w HI sg Hk.
+  apply (cache_sound_abstract tproject config sched fname content tree fname_eqb tree_eqb text_files fp_t has_commands_t g_force true
+           fname_eqb_spec text_files_nodup ops sg0 w HI).
+  apply kf_t_nil_sound_hit. exact Hk. Qed.
+
+Lemma InvW_t_init p c : InvW_t (init_t p c, None).
+Proof. intros h Hc. cbn in Hc. discriminate. Qed.
+
+(* without the graph the class is empty: no premise left *)
+Lemma kf_t_no_graph w (sg : tstate * option tgen) : g_viz (s_cfg (fst sg)) = false -> kf_C08_t w sg = [].
+Proof. destruct sg as [st g]. cbn [fst]. intros Hv. unfold kf_C08_t.
+  destruct (has_commands_t (s_src st) && negb (g_force (s_cfg st)) && cache_hit_t w st); [|reflexivity].
+  destruct g as [[[w0 p0] c0]|]; [|reflexivity].
+  destruct (tree_eqb (fp_t w0 p0 c0) (fp_t w (s_src st) (s_cfg st))) eqn:E; [|reflexivity].
+  apply tree_eqb_spec, fp_t_components in E. destruct E as (_ & _ & Hg & _).
+  apply fp_cfg_determines in Hg. destruct Hg as (_ & _ & Hv'). rewrite Hv in Hv'.
+  unfold u_lines. rewrite Hv, Hv'. rewrite tree_eqb_refl. reflexivity. Qed.
+
+Theorem cache_sound_text_no_graph : forall (ops : list top) (sg0 : tstate * option tgen) (w : sched),
+  InvW_t sg0 ->
+  let sg := fold_left stepG_t ops sg0 in
+  g_viz (s_cfg (fst sg)) = false ->
+  forall r st', run_t w false None (fst sg) = (r, st') -> r = Success \/ r = UpToDate -> up_to_date_t w st'.
+Proof. intros ops sg0 w HI sg Hv. apply cache_sound_text; [exact HI|]. apply kf_t_no_graph. exact Hv. Qed.
+
+(* ---- the other direction, for edit classes where it is immediate: a changed name changes the text ---- *)
+Lemma flat_map_prefix_inv {A B} (g : A -> list B) pre x post x' post' :
+  flat_map g (pre ++ x :: post) = flat_map g (pre ++ x' :: post') -> g x ++ flat_map g post = g x' ++ flat_map g post'.
+Proof. rewrite !flat_map_app. cbn [flat_map]. apply app_inv_head. Qed.
+
+(* struct name: types.ts *)
+Lemma struct_toks_name s s' R R' : Pipeline.struct_toks s ++ R = Pipeline.struct_toks s' ++ R' -> Pipeline.s_name s = Pipeline.s_name s'.
+Proof. unfold Pipeline.struct_toks. cbn [app]. intros H. inversion H. reflexivity. Qed.
+
+Theorem struct_rename_changes_types_ts pre s post s' post' cmds :
+  Pipeline.types_toks (pre ++ s :: post) cmds = Pipeline.types_toks (pre ++ s' :: post') cmds -> Pipeline.s_name s = Pipeline.s_name s'.
+Proof. unfold Pipeline.types_toks. intros H. apply app_inv_head in H. rewrite !flat_map_app in H. cbn [flat_map] in H.
+  rewrite <- !app_assoc in H. apply app_inv_head in H. apply struct_toks_name in H. exact H. Qed.
+
+(* field key (a field name, a rename, a rename_all that changes the key) at any position, the fields before it unchanged *)
+Definition with_fields (s : Pipeline.struct_def) (l : list Pipeline.field) : Pipeline.struct_def :=
+  {| Pipeline.s_name := Pipeline.s_name s; Pipeline.s_serde := Pipeline.s_serde s; Pipeline.s_fields := l |}.
+Theorem field_key_changes_struct_toks s pre f post f' post' R R' :
+  Pipeline.skipped (Pipeline.f_serde f) = false -> Pipeline.skipped (Pipeline.f_serde f') = false ->
+  Pipeline.ty_toks (Pipeline.field_key s f) = [KId (Pipeline.field_key s f)] -> Pipeline.ty_toks (Pipeline.field_key s f') = [KId (Pipeline.field_key s f')] ->
+  Pipeline.struct_toks (with_fields s (pre ++ f :: post)) ++ R = Pipeline.struct_toks (with_fields s (pre ++ f' :: post')) ++ R' ->
+  Pipeline.field_key s f = Pipeline.field_key s f'.
+Proof. intros Hk Hk' Hi Hi'. unfold Pipeline.struct_toks, with_fields. cbn [Pipeline.s_name Pipeline.s_fields app]. intros H.
+  inversion H as [H1]. clear H. rewrite <- !app_assoc in H1.
+  change (fun f0 : Pipeline.field => if Pipeline.skipped (Pipeline.f_serde f0) then [] else Pipeline.member_toks (Pipeline.field_key {| Pipeline.s_name := Pipeline.s_name s; Pipeline.s_serde := Pipeline.s_serde s; Pipeline.s_fields := pre ++ f :: post |} f0) (Pipeline.is_option (Pipeline.f_ty f0)) (Pipeline.ts_of (Pipeline.f_ty f0)))
+    with (fun f0 : Pipeline.field => if Pipeline.skipped (Pipeline.f_serde f0) then [] else Pipeline.member_toks (Pipeline.field_key s f0) (Pipeline.is_option (Pipeline.f_ty f0)) (Pipeline.ts_of (Pipeline.f_ty f0))) in H1.
+  change (fun f0 : Pipeline.field => if Pipeline.skipped (Pipeline.f_serde f0) then [] else Pipeline.member_toks (Pipeline.field_key {| Pipeline.s_name := Pipeline.s_name s; Pipeline.s_serde := Pipeline.s_serde s; Pipeline.s_fields := pre ++ f' :: post' |} f0) (Pipeline.is_option (Pipeline.f_ty f0)) (Pipeline.ts_of (Pipeline.f_ty f0)))
+    with (fun f0 : Pipeline.field => if Pipeline.skipped (Pipeline.f_serde f0) then [] else Pipeline.member_toks (Pipeline.field_key s f0) (Pipeline.is_option (Pipeline.f_ty f0)) (Pipeline.ts_of (Pipeline.f_ty f0))) in H1.
+  rewrite !flat_map_app in H1. rewrite <- !app_assoc in H1. apply app_inv_head in H1. cbn [flat_map] in H1.
+  rewrite Hk, Hk' in H1. unfold Pipeline.member_toks in H1. rewrite Hi, Hi' in H1. cbn [app] in H1. inversion H1. reflexivity. Qed.
+
+(* command name: commands.ts prints it as the string literal of the invoke call *)
+Lemma cons_inv_tail {A} (x y : A) l l' : x :: l = y :: l' -> l = l'.
+Proof. intros H. inversion H. reflexivity. Qed.
+Definition renamed (n : str) (f : Pipeline.fn_def) : Pipeline.fn_def :=
+  {| Pipeline.fn_name := n; Pipeline.fn_attrs := Pipeline.fn_attrs f; Pipeline.fn_async := Pipeline.fn_async f; Pipeline.fn_params := Pipeline.fn_params f; Pipeline.fn_ret := Pipeline.fn_ret f |}.
+Lemma wrapper_toks_name f n R R' : Pipeline.wrapper_toks f ++ R = Pipeline.wrapper_toks (renamed n f) ++ R' -> Pipeline.fn_name f = n.
+Proof. unfold Pipeline.wrapper_toks, renamed, Pipeline.value_params, Pipeline.channels, Pipeline.ret_ts, Pipeline.ret_string. cbn [Pipeline.fn_name Pipeline.fn_params Pipeline.fn_ret].
+  set (has := negb (Nat.eqb _ 0)). set (ret := Pipeline.ty_toks _). intros H.
+  destruct has; cbn [app] in H; repeat (apply cons_inv_tail in H); rewrite <- !app_assoc in H; apply app_inv_head in H;
+    cbn [app] in H; inversion H; reflexivity. Qed.
+
+Lemma has_chan_renamed pre f n post :
+  existsb (fun f => negb (Nat.eqb (List.length (Pipeline.channels f)) 0)) (pre ++ renamed n f :: post) =
+  existsb (fun f => negb (Nat.eqb (List.length (Pipeline.channels f)) 0)) (pre ++ f :: post).
+Proof. rewrite !existsb_app. cbn [existsb]. reflexivity. Qed.
+
+Theorem command_rename_changes_commands_ts pre f n post :
+  Pipeline.commands_toks (pre ++ f :: post) = Pipeline.commands_toks (pre ++ renamed n f :: post) -> Pipeline.fn_name f = n.
+Proof. unfold Pipeline.commands_toks. rewrite has_chan_renamed. intros H. apply app_inv_head in H. apply app_inv_head in H.
+  apply app_inv_head in H. apply flat_map_prefix_inv in H. apply wrapper_toks_name in H. exact H. Qed.
+
+(* event name: events.ts prints it between single quotes *)
+Lemma split_at_sep {A} (c : A) : forall a b r r', ~ In c a -> ~ In c b -> a ++ c :: r = b ++ c :: r' -> a = b.
+Proof. induction a as [|x a IH]; intros [|y b] r r' Ha Hb H; cbn [app] in H.
+  - reflexivity.
+  - inversion H. subst. exfalso. apply Hb. left. reflexivity.
+  - inversion H. subst. exfalso. apply Ha. left. reflexivity.
+  - inversion H. subst. f_equal. apply (IH b r r'); [intros Hi; apply Ha; right; exact Hi|intros Hi; apply Hb; right; exact Hi|assumption]. Qed.
+
+Theorem event_rename_changes_listener e e' R R' :
+  ~ In "'"%char (fst e) -> ~ In "'"%char (fst e') ->
+  Events.listener_text e ++ R = Events.listener_text e' ++ R' -> fst e = fst e'.
+Proof. intros Hq Hq'. unfold Events.listener_text, PipelineZod.cat. cbn [concat]. rewrite <- !app_assoc. intros H.
+  do 3 apply app_inv_head in H.
+  change (PipelineZod.T "' events") with ("'"%char :: L " events") in H. cbn [app] in H.
+  apply split_at_sep in H; assumption. Qed.
